@@ -353,6 +353,8 @@ func checkC06(w *World, r *Report) {
 	keywordInjectiveRule(w, r, "C06.keyword")
 	printerRules(w, r, "C06.one-escaper")
 	intInverseRule(w, r, "C06.int")
+	scannerConfigRule(w, r, "C06.token-rules")
+	literalTableRule(w, r, e, "C06.literals")
 	readerLimitRule(w, r, "C06.no-limit")
 	atomSiteRule(w, r, "C06.atom-site")
 	keyContentRule(w, r, "C06.key-content")
@@ -707,6 +709,12 @@ func checkC16(w *World, r *Report) {
 	tokenVerbatimRule(w, r, "C16.token-text")
 	textIntactRule(w, r, "C16.text-intact")
 	atomLastRule(w, r, "C16.atom-last")
+	// "a complete expression is never reported as incomplete": load-file reads the file's text inside a wrapper
+	// form; the text that closes the wrapper starts on a line of its own, so a comment on the file's last line
+	// cannot swallow the closing bracket and turn a complete file into an 'expected ), got EOF'
+	r.include("C16.lisp-", "C19.", "the closing text of load-file's wrapper begins with a line break: a file of complete expressions that ends in a comment is not reported as incomplete", checkC19, func(rule string) bool {
+		return rule == "C19.wrap"
+	})
 	valueErrorRule(w, r, "C16.value-error")
 	singleFormRule(w, r, "C16.single-form")
 	r.rule("C16.join", "the REPL joins the lines of a multi-line entry with a line break (comments end at the end of a line, so any other separator lets a comment swallow the following lines)")
@@ -1126,6 +1134,7 @@ func checkC15(w *World, r *Report) {
 	e := newEngine(w)
 	r.rule("C15.data", "read_placeholder returns the table entry itself: it calls no tokenizer/reader/printer function on the value")
 	r.rule("C15.token", "read_placeholder is called from exactly one place, read_form's default branch, guarded by the first byte of a token being '$' (strings and comments are single tokens / skipped by the scanner)")
+	atomLastRule(w, r, "C15.atom-last")
 	r.rule("C15.format", "the preamble writer emits '<prefix><name> <PRINT(value)>\\n' per entry and always a blank line before the source; the reader's prefix constant equals the writer's prefix plus the '$' every name starts with, the key offset it strips equals the writer's prefix length, and the reader's pattern, evaluated on lines of the writer's shape, yields the name and the whole value")
 	r.rule("C15.line-safe", "every string-producing branch of the printer in readable mode keeps the value on one line: it maps LF to a non-LF sequence or is taken only for strings without LF")
 	r.rule("C15.stop", "the preamble loop stops at the first empty line (passing on the remaining text) or at the first line without the prefix (passing on that line and the remaining text)")
@@ -1300,6 +1309,72 @@ func checkC15(w *World, r *Report) {
 	}
 	okShape := len(lineParts) == 6 && lineParts[0] == "<acc>" && lineParts[4] == "<PRINT>" && lineParts[5] == "\n" && !strings.HasPrefix(lineParts[1], "<") && !strings.HasPrefix(lineParts[3], "<")
 	r.check(okShape, "C15.format", add, "shape of a preamble line", add.Pos(), strings.Join(lineParts, " + "), "preamble lines are not written as prefix + name + separator + PRINT(value) + line break: "+strings.Join(lineParts, " + "))
+	// every entry of the value table gets its line: no way round the loop over the table skips the write
+	// (which placeholders a text uses is the reader's business - a home-made scan of the text disagrees with the
+	// tokenizer about where a name ends, and the value silently stays behind)
+	r.rule("C15.every-entry", "in AddPreamble every iteration of the loop over the value table writes that entry's line: no path from the loop header back to it avoids the write (no entry is left out by a test of the source text or of the value)")
+	{
+		writes := map[*ssa.BasicBlock]bool{}
+		helperSet := map[*ssa.Function]bool{}
+		for _, wf := range w.withPkgHelpers(add) {
+			if wf != add && wf.Object() != nil && !wf.Object().Exported() {
+				helperSet[wf] = true
+			}
+		}
+		for _, b := range add.Blocks {
+			for _, in := range b.Instrs {
+				switch x := in.(type) {
+				case *ssa.BinOp:
+					if lineTop != nil && x == lineTop {
+						writes[b] = true
+					}
+				case *ssa.Call:
+					if sc := x.Call.StaticCallee(); sc != nil {
+						if sc.Name() == "WriteString" && fnPkgPath(sc) == "strings" {
+							writes[b] = true
+						}
+						if helperSet[sc] && lineTop != nil && (sc == lineTop.Parent() || callsFn(sc, lineTop.Parent())) {
+							writes[b] = true
+						}
+					}
+				}
+			}
+		}
+		nloops := 0
+		for _, l := range naturalLoops(add) {
+			blocks := loopBlocks(l)
+			isMapLoop := false
+			for _, in := range l.header.Instrs {
+				if nx, ok := in.(*ssa.Next); ok && !nx.IsString {
+					isMapLoop = true
+				}
+			}
+			if !isMapLoop {
+				continue
+			}
+			nloops++
+			avoid := map[*ssa.BasicBlock]bool{l.header: true}
+			for b := range writes {
+				avoid[b] = true
+			}
+			skipped := false
+			for _, s := range l.header.Succs {
+				if !blocks[s] {
+					continue
+				}
+				for _, pr := range l.header.Preds {
+					if !blocks[pr] || writes[s] || writes[pr] {
+						continue
+					}
+					if s == pr || reachesAvoiding(s, pr, avoid) {
+						skipped = true
+					}
+				}
+			}
+			r.check(!skipped && len(writes) > 0, "C15.every-entry", add, "loop over the value table", l.header.Instrs[0].Pos(), "every way round writes the entry's line", "an iteration of the loop over the value table can end without the entry's line having been written: that placeholder's value is not transmitted and the placeholder silently reads as nil")
+		}
+		r.floor("C15.every-entry", "loops over the value table in AddPreamble", nloops, 1)
+	}
 	if !okShape {
 		return
 	}
